@@ -397,8 +397,8 @@ def gen_kernel(r, name="k", rich=True, exec_safe=True, feats=None, general_atomi
     n_groups = r.choice([1, 1, 1, 2, 2, 3]) if rich else 1
     base = 0
     if rich and r.random() < 0.3:
+        # host-side code before the @outer loops stays in the launcher; it must not be used inside them (finding F68)
         body.append(Decl("plain", "const int twoN = 2 * N"))
-        K.meta["twoN"] = True
     for g in range(n_groups):
         grp, nodes, cells = gen_group(r, K, g, base, rich, exec_safe)
         K.meta["groups"].append(grp)
@@ -483,18 +483,23 @@ def gen_group(r, K, g, base, rich, exec_safe):
     n_sec = r.choice([1, 1, 2, 2, 3, 4]) if rich else 1
     sections = []
     alts = []
+    wraps = []
     for s in range(n_sec):
         ctx["sec"] = s
+        w = r.random() if rich else 1.0
+        wraps.append(w)
+        # a section repeated by a sequential loop may depend on the loop variable, so that a missing
+        # barrier between two rounds changes the result
+        ctx["rep"] = ("rp%d_%d" % (g, s)) if 0.2 <= w < 0.3 else None
         dec = decide(r, ctx)
         alts.append(gen_section(r, ctx, dec, alt=True) if rich else None)   # same role, other details
         sections.append(gen_section(r, ctx, dec))
         commit(ctx, dec)
+    ctx["rep"] = None
     # arrange: some sections wrapped in uniform control flow (conditions are the same for every
     # thread; the execution checks call with N >= 1, M >= 2)
-    i = 0
-    while i < len(sections):
-        sec = sections[i]
-        w = r.random() if rich else 1.0
+    for i, sec in enumerate(sections):
+        w = wraps[i]
         if w < 0.12:
             inner_stmts.append(If("N > 0", [sec]))
             feats.add("inner-in-if")
@@ -515,7 +520,6 @@ def gen_group(r, K, g, base, rich, exec_safe):
         if rich and r.random() < 0.1 and i + 1 < len(sections):
             inner_stmts.append(Leaf("barrier"))
             feats.add("barrier")
-        i += 1
     # nest the outer loops
     node_kids = inner_stmts
     extra = ""
@@ -634,7 +638,7 @@ def gen_body(r, ctx, inner, dec):
                 return "%s[(%s) / %d][(%s) %% %d]" % (nm, e, sh["two"][1], e, sh["two"][1])
             return "%s[%s]" % (nm, e)
         if what == "write":
-            out.append(Stmt("%s = %s + %d" % (at(lid), in_idx(r, ctx, inner), r.randrange(9)), uses="s"))
+            out.append(Stmt("%s = %s + %s" % (at(lid), in_idx(r, ctx, inner), ("%s * 5" % ctx["rep"]) if ctx.get("rep") else str(r.randrange(9))), uses="s"))
             uses_shared = True
         elif what == "read":
             k = r.randrange(1, max(2, T))
